@@ -133,6 +133,18 @@ impl Inputs {
         }
         Inputs { sets: sets.to_vec(), first_atoms, atoms, all_terms }
     }
+    /// Non-empty input sets that may overlap or be equal (only used with a `Table::for_subsets` table).
+    fn overlapping(sets: &[u32]) -> Inputs {
+        let mut all_terms = 0u32;
+        for &s in sets {
+            assert!(s != 0 && s & 1 == 0 && s >> (MAX_TERM + 1) == 0, "C17 harness: input term out of range");
+            all_terms |= s;
+        }
+        Inputs { sets: sets.to_vec(), first_atoms: sets.to_vec(), atoms: bits_of(all_terms), all_terms }
+    }
+    fn overlaps(&self) -> bool {
+        (0..self.n()).any(|i| (i + 1..self.n()).any(|j| self.sets[i] & self.sets[j] != 0))
+    }
     fn flat(n: usize) -> Inputs {
         let sets: Vec<u32> = (0..n).map(|i| 1u32 << FLAT[i]).collect();
         Inputs::new(&sets)
@@ -171,12 +183,65 @@ fn set_of(terms: &[u32]) -> u32 {
 /// In the family "one infinite distance" the pair of the largest rank is at +inf instead; a set pair
 /// whose members include that pair is at +inf as well (the mean of values one of which is +inf).
 /// `fixed` (n = 2 only) overrides the single base distance with an explicit f32 value.
+/// `offset` (an integer, in units of 1/scale) is subtracted from every value (after the mean, which
+/// is affine): it moves some or all distances below zero without changing their order.
+/// `subsets` switches to a different kind of table for OVERLAPPING inputs: a plain look-up keyed by
+/// the contents of the two sets, each a non-empty subset of a 3-term universe (code = bit k set iff
+/// universe[k] is in the set), with a value for every unordered pair of subsets, equal ones included.
 struct Table {
     m: usize,
     ival: [[u64; MAX_ATOMS]; MAX_ATOMS],
     inf: [[bool; MAX_ATOMS]; MAX_ATOMS],
     fixed: Option<f32>,
     scale: f64,
+    offset: f64,
+    subsets: Option<SubsetTable>,
+}
+
+struct SubsetTable {
+    universe: [u32; 3],
+    /// integer value per (code, code), symmetric; value = integer / 2^18
+    ints: [[u64; 8]; 8],
+}
+
+const SUBSET_SCALE: f64 = 262144.0;
+
+impl SubsetTable {
+    fn code(&self, content: u32) -> usize {
+        (0..3).filter(|&k| content >> self.universe[k] & 1 == 1).map(|k| 1usize << k).sum()
+    }
+    fn value(&self, ca: u32, cb: u32) -> f32 {
+        (self.ints[self.code(ca)][self.code(cb)] as f64 / SUBSET_SCALE) as f32
+    }
+    /// `variant` selects one of four fixed assignments of the 28 ranks to the unordered pairs of subsets.
+    /// rank r -> integer (r+1)*4096 + (37 r^2 mod 4093): increasing, exact, and means of two values rarely
+    /// coincide with a third one (ties are detected by the reference anyway).
+    fn new(universe: [u32; 3], variant: usize) -> SubsetTable {
+        let mut ints = [[0u64; 8]; 8];
+        let mut p = 0usize;
+        for a in 1..8usize {
+            for b in a..8usize {
+                let r = match variant {
+                    0 => p,
+                    1 => 27 - p,
+                    2 => {
+                        if p % 2 == 0 {
+                            p / 2
+                        } else {
+                            27 - p / 2
+                        }
+                    }
+                    _ => (p * 11 + 5) % 28,
+                } as u64;
+                let v = (r + 1) * 4096 + (37 * r * r) % 4093;
+                ints[a][b] = v;
+                ints[b][a] = v;
+                p += 1;
+            }
+        }
+        assert_eq!(p, 28);
+        SubsetTable { universe, ints }
+    }
 }
 
 /// JSON rendering of a distance (serde_json would turn a non-finite number into null).
@@ -201,6 +266,12 @@ enum Family {
     Geometric,
     /// as Spread, but the pair of the largest rank is at f32::INFINITY (a legal distance, e.g. -ln 0)
     InfTop,
+    /// as Spread minus an offset that puts exactly the closest pair below zero
+    NegOne,
+    /// as Spread minus an offset that puts exactly the ceil(m/2) closest pairs below zero
+    NegHalf,
+    /// as Spread minus an offset that puts every pair below zero
+    NegAll,
 }
 
 impl Family {
@@ -210,20 +281,46 @@ impl Family {
             Family::Linear => "linear",
             Family::Geometric => "geometric",
             Family::InfTop => "one-infinite",
+            Family::NegOne => "closest-negative",
+            Family::NegHalf => "half-negative",
+            Family::NegAll => "all-negative",
         }
     }
     fn scale(self, m: usize) -> f64 {
         match self {
-            Family::Spread | Family::InfTop => (1u64 << (m + 6)) as f64,
+            Family::Spread | Family::InfTop | Family::NegOne | Family::NegHalf | Family::NegAll => (1u64 << (m + 6)) as f64,
             Family::Linear => 64.0,
             Family::Geometric => 65536.0,
         }
     }
 }
 
+/// Number of pairs (the closest ones) that the family puts below zero.
+fn negatives(fam: Family, m: usize) -> usize {
+    match fam {
+        Family::NegOne => 1.min(m),
+        Family::NegHalf => (m + 1) / 2,
+        Family::NegAll => m,
+        _ => 0,
+    }
+}
+
+/// The offset (integer units) that makes exactly the k closest of m Spread values negative and none zero:
+/// I_r = (r+1)*2^m + 2^r lies strictly between k*2^m + 2^(m-1) for r < k <= r' (k < m); for k = m the
+/// offset is (m+1)*2^m, above every value.
+fn negative_offset(k: usize, m: usize) -> u64 {
+    if k == 0 || m == 0 {
+        0
+    } else if k >= m {
+        ((m as u64) + 1) << m
+    } else {
+        ((k as u64) << m) + (1u64 << (m - 1))
+    }
+}
+
 fn base_int(fam: Family, rank: usize, m: usize) -> u64 {
     match fam {
-        Family::Spread | Family::InfTop => (((rank as u64) + 1) << m) | (1u64 << rank),
+        Family::Spread | Family::InfTop | Family::NegOne | Family::NegHalf | Family::NegAll => (((rank as u64) + 1) << m) | (1u64 << rank),
         Family::Linear => rank as u64 + 1,
         Family::Geometric => 3u64.pow(rank as u32),
     }
@@ -251,7 +348,21 @@ impl Table {
                 p += 1;
             }
         }
-        Table { m, ival, inf, fixed: None, scale: fam.scale(m) }
+        let offset = negative_offset(negatives(fam, m), m) as f64;
+        Table { m, ival, inf, fixed: None, scale: fam.scale(m), offset, subsets: None }
+    }
+
+    /// Content-keyed look-up table for overlapping inputs over a 3-term universe.
+    fn for_subsets(universe: [u32; 3], variant: usize) -> Table {
+        Table { m: 28, ival: [[0u64; MAX_ATOMS]; MAX_ATOMS], inf: [[false; MAX_ATOMS]; MAX_ATOMS], fixed: None, scale: SUBSET_SCALE, offset: 0.0, subsets: Some(SubsetTable::new(universe, variant)) }
+    }
+
+    /// The distance of inputs i and j in the initial call (keyed by input index).
+    fn initial(&self, inp: &Inputs, i: usize, j: usize) -> f32 {
+        match &self.subsets {
+            Some(t) => t.value(inp.sets[i], inp.sets[j]),
+            None => self.value(inp.first_atoms[i], inp.first_atoms[j]),
+        }
     }
 
     /// Singleton inputs with explicit integer base distances `ints[i][j]` (value = integer / scale).
@@ -266,7 +377,7 @@ impl Table {
                 }
             }
         }
-        Table { m: n_pairs(n), ival, inf: [[false; MAX_ATOMS]; MAX_ATOMS], fixed: None, scale }
+        Table { m: n_pairs(n), ival, inf: [[false; MAX_ATOMS]; MAX_ATOMS], fixed: None, scale, offset: 0.0, subsets: None }
     }
 
     /// Two singleton inputs with the explicit distance `v` between them.
@@ -303,18 +414,21 @@ impl Table {
         if infinite {
             return f32::INFINITY;
         }
-        ((sum as f64) / (cnt as f64) / self.scale) as f32
+        (((sum as f64) / (cnt as f64) - self.offset) / self.scale) as f32
     }
 
     /// The distance the callback answers for two set contents outside the initial call.
     fn by_content(&self, ca: u32, cb: u32) -> f32 {
-        self.value(atomize(ca), atomize(cb))
+        match &self.subsets {
+            Some(t) => t.value(ca, cb),
+            None => self.value(atomize(ca), atomize(cb)),
+        }
     }
 
     fn base_json(&self, inp: &Inputs) -> Value {
         let mut v = vec![];
         for (i, j) in pair_list(inp.n()) {
-            v.push(json!({"inputs": [i, j], "terms": [bits_of(inp.sets[i]), bits_of(inp.sets[j])], "distance": fj(self.value(inp.first_atoms[i], inp.first_atoms[j]))}));
+            v.push(json!({"inputs": [i, j], "terms": [bits_of(inp.sets[i]), bits_of(inp.sets[j])], "distance": fj(self.initial(inp, i, j))}));
         }
         json!(v)
     }
@@ -350,6 +464,10 @@ struct Rec {
     selfpairs: u32,
     /// overlapping but different sets
     overlap: u32,
+    /// sets whose iteration is not strictly ascending (a term twice / unsorted) or whose len() is not
+    /// the number of distinct terms; the first one as (iterated ids, len())
+    malformed: u32,
+    malformed_example: Option<(Vec<u32>, usize)>,
 }
 
 impl Rec {
@@ -360,17 +478,31 @@ impl Rec {
         self.foreign = 0;
         self.selfpairs = 0;
         self.overlap = 0;
+        self.malformed = 0;
+        self.malformed_example = None;
     }
 }
 
-fn content_of(set: &HpoSet<'_>, allowed: u32, foreign: &mut u32) -> u32 {
+fn content_of(set: &HpoSet<'_>, allowed: u32, rec: &mut Rec) -> u32 {
     let mut m = 0u32;
+    let mut prev: Option<u32> = None;
+    let mut well_formed = true;
     for t in set.iter() {
         let id = t.id().as_u32();
+        if prev.map_or(false, |p| p >= id) {
+            well_formed = false;
+        }
+        prev = Some(id);
         if id <= MAX_TERM && allowed >> id & 1 == 1 {
             m |= 1 << id;
         } else {
-            *foreign += 1;
+            rec.foreign += 1;
+        }
+    }
+    if !well_formed || set.len() != m.count_ones() as usize {
+        rec.malformed += 1;
+        if rec.malformed_example.is_none() {
+            rec.malformed_example = Some((set.iter().map(|t| t.id().as_u32()).collect(), set.len()));
         }
     }
     m
@@ -396,6 +528,10 @@ fn run_lib(ont: &Ontology, inp: &Inputs, method: Method, table: &Table, rec: &Re
         rec.calls += 1;
         let mut out = Vec::with_capacity(24);
         let by_content = |rec: &mut Rec, xa: u32, xb: u32| -> f32 {
+            if table.subsets.is_some() {
+                // overlapping inputs: a plain look-up by the two contents (equal or overlapping contents are legal)
+                return if xa == 0 || xb == 0 { 0.0 } else { table.by_content(xa, xb) };
+            }
             let (a, b) = (atomize(xa), atomize(xb));
             if a == b {
                 rec.selfpairs += 1;
@@ -409,10 +545,8 @@ fn run_lib(ont: &Ontology, inp: &Inputs, method: Method, table: &Table, rec: &Re
         };
         if call == 0 {
             for (a, b) in combs {
-                let mut foreign = 0;
-                let xa = content_of(a, inp.all_terms, &mut foreign);
-                let xb = content_of(b, inp.all_terms, &mut foreign);
-                rec.foreign += foreign;
+                let xa = content_of(a, inp.all_terms, &mut rec);
+                let xb = content_of(b, inp.all_terms, &mut rec);
                 rec.first.push((xa, xb));
             }
             // initial call: keyed by input index (pair k is the k-th pair in Combinations order), which for
@@ -425,7 +559,7 @@ fn run_lib(ont: &Ontology, inp: &Inputs, method: Method, table: &Table, rec: &Re
                     for j in i + 1..n {
                         let (xa, xb) = rec.first[k];
                         if (xa, xb) == (inp.sets[i], inp.sets[j]) {
-                            out.push(table.value(inp.first_atoms[i], inp.first_atoms[j]));
+                            out.push(table.initial(inp, i, j));
                         } else {
                             let v = by_content(&mut rec, xa, xb);
                             out.push(v);
@@ -442,10 +576,8 @@ fn run_lib(ont: &Ontology, inp: &Inputs, method: Method, table: &Table, rec: &Re
             }
         } else {
             for (a, b) in combs {
-                let mut foreign = 0;
-                let xa = content_of(a, inp.all_terms, &mut foreign);
-                let xb = content_of(b, inp.all_terms, &mut foreign);
-                rec.foreign += foreign;
+                let xa = content_of(a, inp.all_terms, &mut rec);
+                let xb = content_of(b, inp.all_terms, &mut rec);
                 rec.later.push((call, xa, xb));
                 let v = by_content(&mut rec, xa, xb);
                 out.push(v);
@@ -501,7 +633,7 @@ fn reference(inp: &Inputs, method: Method, table: &Table) -> RefRun {
     }
     for i in 0..n {
         for j in i + 1..n {
-            let v = table.value(inp.first_atoms[i], inp.first_atoms[j]);
+            let v = table.initial(inp, i, j);
             d[i][j] = v;
             d[j][i] = v;
         }
@@ -628,6 +760,14 @@ fn check(inp: &Inputs, method: Method, obs: &Obs, rf: &RefRun, rec: &Rec) -> Opt
             }
         }
     }
+    if rec.malformed > 0 {
+        let (ids, len) = rec.malformed_example.clone().unwrap_or_default();
+        return fail(
+            site,
+            "distance callback received a malformed set (a term twice or terms not ascending in its iteration, or len() != number of distinct terms)",
+            format!("n={n}: {} such sets, the first one iterates {:?} and has len() {}", rec.malformed, ids, len),
+        );
+    }
     if rec.foreign > 0 {
         return fail(site, "the distance callback receives a term that belongs to no input set", format!("n={n}: {} such terms", rec.foreign));
     }
@@ -736,7 +876,30 @@ fn check(inp: &Inputs, method: Method, obs: &Obs, rf: &RefRun, rec: &Rec) -> Opt
     None
 }
 
+fn rust_snippet_subsets(f: &Facts, inp: &Inputs, method: Method, t: &SubsetTable) -> String {
+    let mut s = String::new();
+    s.push_str("use hpo::{HpoSet, stats::Linkage, term::HpoGroup, utils::Combinations};\n");
+    s.push_str(&f.to_rust(false));
+    let sets: Vec<String> = inp.sets.iter().map(|&x| format!("vec!{:?}", bits_of(x))).collect();
+    s.push_str(&format!("let inputs: Vec<Vec<u32>> = vec![{}]; // the terms of the input sets (they may overlap)\n", sets.join(", ")));
+    s.push_str(&format!("let universe = {:?}u32;\n", t.universe).replace("]u32", "u32]"));
+    let rows: Vec<String> = (0..8).map(|i| format!("{:?}", t.ints[i])).collect();
+    s.push_str(&format!("// distance of two sets = ints[code(a)][code(b)] / 2^18, code = sum of 2^k over the universe terms k in the set\nlet ints: [[u64; 8]; 8] = [{}];\n", rows.join(", ")));
+    s.push_str("let ids = |x: &HpoSet<'_>| -> Vec<u32> { x.iter().map(|t| hpo::annotations::AnnotationId::as_u32(&t.id())).collect() };\n");
+    s.push_str("let code = |x: &HpoSet<'_>| -> usize { let v = ids(x); (0..3).filter(|k| v.contains(&universe[*k])).map(|k| 1usize << k).sum() };\n");
+    s.push_str("let dist = |c: Combinations<HpoSet<'_>>| -> Vec<f32> { c.map(|(a, b)| {\n");
+    s.push_str("    println!(\"callback: {:?} (len {}) vs {:?} (len {})\", ids(a), a.len(), ids(b), b.len());\n");
+    s.push_str("    (ints[code(a)][code(b)] as f64 / 262144.0) as f32\n}).collect() };\n");
+    s.push_str("let sets = inputs.iter().map(|ts| { let mut g = HpoGroup::new(); for t in ts { g.insert(*t); } HpoSet::new(&ont, g) });\n");
+    s.push_str(&format!("let l = Linkage::{}(sets, dist);\n", method.name()));
+    s.push_str("for c in l.cluster() { println!(\"{} {} {} {}\", c.lhs(), c.rhs(), c.distance(), c.len()); }\nprintln!(\"{:?}\", l.indicies());\n");
+    s
+}
+
 fn rust_snippet(f: &Facts, inp: &Inputs, method: Method, table: &Table) -> String {
+    if let Some(t) = &table.subsets {
+        return rust_snippet_subsets(f, inp, method, t);
+    }
     let n = inp.n();
     let mut s = String::new();
     s.push_str("use hpo::{HpoSet, stats::Linkage, term::HpoGroup, utils::Combinations};\n");
@@ -750,7 +913,7 @@ fn rust_snippet(f: &Facts, inp: &Inputs, method: Method, table: &Table) -> Strin
     s.push_str(&format!("let ival: [[u64; {MAX_ATOMS}]; {MAX_ATOMS}] = [{}];\n", rows.join(", ")));
     let rows: Vec<String> = (0..MAX_ATOMS).map(|i| format!("{:?}", table.inf[i])).collect();
     s.push_str(&format!("let inf: [[bool; {MAX_ATOMS}]; {MAX_ATOMS}] = [{}]; // atom pairs at distance +inf\n", rows.join(", ")));
-    s.push_str(&format!("let scale = {}f64;\n", table.scale));
+    s.push_str(&format!("let scale = {}f64;\nlet offset = {}f64; // subtracted from every (mean) value before scaling\n", table.scale, table.offset));
     s.push_str("let value = |a: &Vec<usize>, b: &Vec<usize>| -> f32 {\n");
     s.push_str("    if a == b { return 0.0; } // the library also asks for a merged set against itself\n");
     if let Some(v) = table.fixed {
@@ -758,7 +921,7 @@ fn rust_snippet(f: &Facts, inp: &Inputs, method: Method, table: &Table) -> Strin
     }
     s.push_str("    if a.iter().any(|i| b.iter().any(|j| inf[*i][*j])) { return f32::INFINITY; }\n");
     s.push_str("    let mut sum = 0u64; for i in a { for j in b { sum += ival[*i][*j]; } }\n");
-    s.push_str("    (sum as f64 / (a.len() * b.len()) as f64 / scale) as f32\n};\n");
+    s.push_str("    ((sum as f64 / (a.len() * b.len()) as f64 - offset) / scale) as f32\n};\n");
     s.push_str("let atoms = |x: &HpoSet<'_>| -> Vec<usize> { let v: Vec<usize> = x.iter().map(|t| hpo::annotations::AnnotationId::as_u32(&t.id()) as usize).collect(); if v.is_empty() { vec![0] } else { v } };\n");
     s.push_str("let calls = std::cell::Cell::new(0usize);\n");
     s.push_str("let dist = |c: Combinations<HpoSet<'_>>| -> Vec<f32> {\n");
@@ -1126,13 +1289,21 @@ fn history_ints(n: usize, hist: &[(usize, usize)]) -> [[u64; MAX_N]; MAX_N] {
 
 /// All merge histories of n singleton inputs x 4 methods; the reference computes the expected merges
 /// as usual (the harness additionally asserts that it reproduces the chosen history).
-fn histories(ctx: &mut Ctx, env: &Env, n: usize) {
+/// `negative_steps` = k > 0: an offset of k*256 + 128 (in the table's integer units) is subtracted, so the
+/// distances of the first k merge steps are negative (k = n-1: all of them).
+fn histories(ctx: &mut Ctx, env: &Env, n: usize, negative_steps: usize) {
     let inp = Inputs::flat(n);
     let pairs = pair_list(n);
     let total = count_histories(n);
+    let offset = if negative_steps == 0 { 0.0 } else { (negative_steps * 256 + 128) as f64 };
+    let label = if negative_steps == 0 { String::new() } else { format!("-negative-first-{negative_steps}-steps") };
     ctx.space(
-        &format!("n{n}/all-merge-histories/all-methods"),
-        &format!("n = {n}: all {total} merge histories (at every step any pair of the live clusters), each forced by a tie-free perturbed ultrametric distance table, x 4 methods; one case = the 18 histories sharing the first {} merges", n - 4),
+        &format!("n{n}/all-merge-histories{label}/all-methods"),
+        &format!(
+            "n = {n}: all {total} merge histories (at every step any pair of the live clusters), each forced by a tie-free perturbed ultrametric distance table{}, x 4 methods; one case = the 18 histories sharing the first {} merges",
+            if negative_steps == 0 { String::new() } else { format!(" shifted so that the distances of the first {negative_steps} of the {} merge steps are negative", n - 1) },
+            n - 4
+        ),
     );
     // one case = all histories sharing the first n-4 merges (6 * 3 * 1 = 18 completions)
     let mut heads: Vec<Vec<(usize, usize)>> = vec![];
@@ -1148,7 +1319,8 @@ fn histories(ctx: &mut Ctx, env: &Env, n: usize) {
         let mut last: Vec<(usize, usize)> = vec![];
         for_each_history(n, n - 1, head, &mut |hist| {
             let ints = history_ints(n, hist);
-            let table = Table::from_ints(&inp, &ints, 2048.0);
+            let mut table = Table::from_ints(&inp, &ints, 2048.0);
+            table.offset = offset;
             // the rank order this table realises (for the records)
             let vals: Vec<u64> = pairs.iter().map(|&(a, b)| ints[a][b]).collect();
             let mut sorted = vals.clone();
@@ -1164,9 +1336,11 @@ fn histories(ctx: &mut Ctx, env: &Env, n: usize) {
             last = hist.to_vec();
         });
         assert_eq!(count, 18, "C17 harness: completions of a history head");
-        flush(ctx, n, "merge-histories", true, count, &tally);
+        flush(ctx, n, &format!("merge-histories{label}"), true, count, &tally);
+        let mut last_table = Table::from_ints(&inp, &history_ints(n, &last), 2048.0);
+        last_table.offset = offset;
         ctx.sample(|| json!({"n": n, "histories_in_case": count, "last_history (joined cluster indices per step; step s forms cluster n+s)": last,
-            "its_base_distances": Table::from_ints(&inp, &history_ints(n, &last), 2048.0).base_json(&inp)}));
+            "its_base_distances": last_table.base_json(&inp)}));
     }
     assert_eq!(enumerated, total, "C17 harness: number of merge histories");
 }
@@ -1236,6 +1410,9 @@ pub fn run(ctx: &mut Ctx) {
         "input sets may contain terms related by is_a (an ancestor in one input, its descendant in another or the same): clustering must not normalise the content of merged sets".into(),
         "(lhs, rhs) of a merge is compared as an unordered pair".into(),
         "+inf, 0.0, f32::MAX and f32::MIN_POSITIVE are legal distances (e.g. -ln of a similarity of 0 is +inf); the merge at +inf must be reported at +inf; NaN and negative values are not used".into(),
+        "the sign of the user distance is not restricted: the spaces named *-negative-* shift the same dyadic values by an integer offset (applied after the mean, which is affine) so that some or all distances are below zero; the reported merge distances must be those negative values".into(),
+        "input sets may overlap, be nested or equal (spaces named overlapping-inputs): the distance is then a plain look-up keyed by the two contents (28 distinct exact values for the unordered pairs of the 7 non-empty subsets of a 3-term universe, equal contents included); for `union` the merged set must be the set union; equal-content inputs produce equal distances, counted as ties when minimal".into(),
+        "every set handed to the callback (any space, any invocation) must iterate its terms strictly ascending without repetition and report len() = number of distinct terms (an HpoSet is a set of unique terms)".into(),
         "n = 0 and n = 1 are don't-care: executed under catch_unwind, nothing is demanded".into(),
         "ontology: Builder, build_minimal; root 1; 2,3,4,6,8,9,10,11 children of 1; 5 child of 2; 7 child of 5; the main spaces use singletons of the pairwise unrelated terms 2,3,4,6,8,9,10".into(),
     ];
@@ -1286,6 +1463,60 @@ pub fn run(ctx: &mut Ctx) {
     };
     for n in 2..=4usize {
         infinite(ctx, n);
+    }
+
+    // ---- negative distances: the Spread values minus an offset, so that the closest pair / half of the pairs /
+    //      all pairs are below zero (the property does not restrict the sign of the user distance)
+    let negative = |ctx: &mut Ctx, n: usize, fams: &[Family]| {
+        let m = n_pairs(n);
+        let total: u64 = (1..=m as u64).product();
+        for &fam in fams {
+            ctx.space(
+                &format!("n{n}/all-rank-orders/{}-distances/all-methods", fam.name()),
+                &format!("n = {n}: all {total} rank orders of the {m} pairwise distances, shifted so that the {} closest of the {m} pairs are at negative distances x 4 methods", negatives(fam, m)),
+            );
+            exhaustive(ctx, &env, &Inputs::flat(n), fam, &format!("{}-values", fam.name()), true, &METHODS);
+        }
+    };
+    negative(ctx, 2, &[Family::NegAll]);
+    negative(ctx, 3, &[Family::NegOne, Family::NegHalf, Family::NegAll]);
+    negative(ctx, 4, &[Family::NegOne, Family::NegHalf, Family::NegAll]);
+
+    // ---- overlapping inputs: every sequence of n non-empty subsets of a 3-term universe (equal, nested, overlapping,
+    //      disjoint inputs), distance = look-up by the two contents, 4 fixed tables x 4 methods
+    for n in 2..=(if thorough { 4usize } else { 3 }) {
+        let universes: [[u32; 3]; 2] = [[3, 4, 6], [2, 5, 7]];
+        let seqs = 7u64.pow(n as u32);
+        ctx.space(
+            &format!("n{n}/overlapping-inputs/all-subset-sequences/all-methods"),
+            &format!("n = {n}: all {seqs} sequences of non-empty subsets of a 3-term universe, universes {{3,4,6}} (unrelated terms) and {{2,5,7}} (a chain of ancestors) x 4 content-keyed distance tables (fixed rank assignments to the 28 unordered pairs of subsets) x 4 methods; one case = one sequence"),
+        );
+        for universe in universes {
+            let tables: Vec<Table> = (0..4).map(|v| Table::for_subsets(universe, v)).collect();
+            for code in 0..seqs {
+                if !ctx.take() {
+                    continue;
+                }
+                let mut c = code;
+                let sets: Vec<u32> = (0..n)
+                    .map(|_| {
+                        let sub = (c % 7 + 1) as usize;
+                        c /= 7;
+                        (0..3).filter(|k| sub >> k & 1 == 1).fold(0u32, |m, k| m | 1 << universe[k])
+                    })
+                    .collect();
+                let inp = Inputs::overlapping(&sets);
+                let mut tally = Tally::default();
+                for (v, table) in tables.iter().enumerate() {
+                    for &method in &METHODS {
+                        one(ctx, &env, &inp, &[v], table, method, &mut tally);
+                    }
+                }
+                flush(ctx, n, "overlapping-inputs", inp.overlaps(), 1, &tally);
+                ctx.sample(|| json!({"n": n, "input_sets (terms)": inp.to_json(), "universe": universe, "tables": 4, "methods": METHODS.iter().map(|m| m.name()).collect::<Vec<_>>(),
+                    "base_distances_of_table_0": tables[0].base_json(&inp)}));
+            }
+        }
     }
 
     // ---- n = 2 with explicit border values of the single distance
@@ -1391,8 +1622,11 @@ pub fn run(ctx: &mut Ctx) {
     families(ctx, 4);
 
     // ---- every merge history (tree shape x merge order) for n = 6, 7, forced by perturbed ultrametric tables; n = 8 thorough (below)
-    histories(ctx, &env, 6);
-    histories(ctx, &env, 7);
+    histories(ctx, &env, 6, 0);
+    histories(ctx, &env, 7, 0);
+    // the same with negative distances: the first 2 merge steps / all 5 merge steps below zero
+    histories(ctx, &env, 6, 2);
+    histories(ctx, &env, 6, 5);
 
     // ---- n = 5: all 10! rank orders
     for &method in &METHODS {
@@ -1402,9 +1636,12 @@ pub fn run(ctx: &mut Ctx) {
     if thorough {
         families(ctx, 5);
         infinite(ctx, 5);
+        negative(ctx, 5, &[Family::NegHalf, Family::NegAll]);
         // 5 atoms = 10 base distances: 10! rank orders each
         with_empties(ctx, 5, 1, &[2, 5, 3, 4], "one-empty-input");
-        histories(ctx, &env, 8);
+        histories(ctx, &env, 8, 0);
+        histories(ctx, &env, 7, 3);
+        histories(ctx, &env, 7, 6);
         related(ctx, 4, 5);
     }
 
